@@ -135,9 +135,24 @@ DocLess(a, b) == LexLess(DocKey(a), DocKey(b))
 (* The documentation leaves the order of diagnostics that agree on all six keys open.  C36
    demands that the result be the same for every input order nevertheless, so SOME total
    order extending the documented one must be used.  TieKey is the specification's choice
-   (any would do): the remaining fields, summarised.  It must separate all distinct
+   (any would do): every remaining field, encoded numerically.  It must separate all distinct
    diagnostics of the universe in use (TieKeyInjective is checked by TLC in MCReportCanon).   *)
-TieKey(d) == << LevelRank(d.level), Rank(d.inFile), Len(d.notes), Len(d.help), Len(d.debug), Len(d.anns) >>
+(* every string the configurations use, for an (arbitrary, injective) numbering *)
+OtherStrings == << "am", "au", "x1", "x2", "r", "ru", "mu", "ml" >>
+AllStrings == KeyStrings \o OtherStrings
+Num(s) == CHOOSE i \in 1..Len(AllStrings) : AllStrings[i] = s
+B2N(b) == IF b THEN 1 ELSE 0
+(* fixed-width numeric encodings (LexLess compares tuples of equal length): up to two texts per
+   list, up to two annotations, up to two edits per annotation; 0 pads                        *)
+TextsKey(ss) == << Len(ss), IF Len(ss) >= 1 THEN Num(ss[1]) ELSE 0, IF Len(ss) >= 2 THEN Num(ss[2]) ELSE 0 >>
+EditKey(es, i) == IF Len(es) >= i THEN << es[i].start + 1, es[i].end + 1, Num(es[i].replace) >> ELSE << 0, 0, 0 >>
+AnnKey(as, i) ==
+  IF Len(as) >= i
+  THEN << Num(as[i].path), as[i].start + 1, as[i].end + 1, Num(as[i].msg), B2N(as[i].primary), B2N(as[i].pb),
+          Len(as[i].edits) >> \o EditKey(as[i].edits, 1) \o EditKey(as[i].edits, 2)
+  ELSE << 0, 0, 0, 0, 0, 0, 0, 0, 0, 0, 0, 0, 0 >>
+TieKey(d) == << LevelRank(d.level), Num(d.inFile), Len(d.anns) >> \o AnnKey(d.anns, 1) \o AnnKey(d.anns, 2)
+             \o TextsKey(d.notes) \o TextsKey(d.help) \o TextsKey(d.debug)
 FullKey(d)     == DocKey(d) \o TieKey(d)
 FullLess(a, b) == LexLess(FullKey(a), FullKey(b))
 
